@@ -1,19 +1,19 @@
 /-
-Tie 2 (facts): the set of numeric literals and the multiset of comparison/boolean operators of the Go functions below, REGENERATED from /repo on
+Tie 2 (facts): the set of numeric literals of the Go functions below, REGENERATED from /repo on
 every run (Gen/Facts.lean), are the ones the hand-written model was written against (C03 C04 C09 C10).
-A changed constant, a flipped or dropped comparison in one of these functions breaks the `decide` below even where no sampled
+A changed constant in one of these functions breaks the `decide` below even where no sampled
 input shows it; renaming and reordering of statements do not.
 -/
 import SpatialId.Gen.Facts
 namespace SpatialId.FactsZoom
 open SpatialId
 
-/-- literals and comparisons of `integrate.VerticalZoom` -/
+/-- numeric literals of `integrate.VerticalZoom` -/
 theorem facts_integrate_VerticalZoom :
-    Gen.funcFacts.lookup "integrate.VerticalZoom" = some ["i:0", "i:1", "i:2", "op:<", "op:<=", "op:>"] := by decide
+    Gen.funcFacts.lookup "integrate.VerticalZoom" = some ["i:0", "i:1", "i:2"] := by decide
 
-/-- literals and comparisons of `object.(ExtendedSpatialID).Higher` -/
+/-- numeric literals of `object.(ExtendedSpatialID).Higher` -/
 theorem facts_object_ExtendedSpatialID_Higher :
-    Gen.funcFacts.lookup "object.(ExtendedSpatialID).Higher" = some ["i:0", "i:2", "op:<"] := by decide
+    Gen.funcFacts.lookup "object.(ExtendedSpatialID).Higher" = some ["i:0", "i:2"] := by decide
 
 end SpatialId.FactsZoom
